@@ -64,6 +64,9 @@ T = {
  "C19": ("argument-bytes monitor + repeatability monitor over a registry of ~165 public call specifications, write-protect re-run as localiser",
          "Runtime monitoring: every free function of orientation/quaternion/frames/mathfuncs/metrics, every class constructor with its array-valued keywords (q0, P, b0, w0, weights, magnetic_ref, mag_ref, v1, v2, noises), every update/estimate method and Sensors(quaternions=) is called with non-normalised / degree-valued arguments as fresh arrays, as strided views of larger buffers and with one array aliased to two parameters; argument (and buffer) bytes are compared before/after, the call is repeated on the same objects and on pristine copies in the same layout, and a mutation is re-run write-protected to report the source line.",
          "NumPy; only documented array parameters; explicitly in-place operations are exempt; random functions re-seeded", "5/C19"),
+ "C20": ("reference-model monitor (ground truth -> expected sensor rows), gyro re-integration history check, chi-square noise-level monitor",
+         "Runtime monitoring: Sensors(num_samples=N) and Sensors(quaternions=Q) are generated for N in 10..600, sampling 20-400 Hz, degrees/radians, normalised magnetometer, default/custom reference vectors and every zero / non-zero / default combination of the three noise levels; rotations, quaternions and angular positions must describe the same attitudes, noise-free accelerometer and magnetometer rows must equal R_i^T ref exactly, gyroscopes minus the reported bias must equal the true rate exactly and re-integrate to the trajectory within the exact first-order budget, and with noise the empirical sigma and mean offset must match the reported attributes (6-sigma bounds).",
+         "NumPy; module-level GENERATOR re-seeded per case; gyr_noise scaled to the data units as documented", "5/C20"),
 }
 
 def main():
